@@ -11,6 +11,7 @@ import (
 	"fmt"
 	"go/ast"
 	"go/parser"
+	"go/printer"
 	"go/token"
 	"os"
 	"path/filepath"
@@ -387,6 +388,15 @@ func (cfg *lockCfg) lhs(l ast.Expr, ev evFn) []Event {
 	return nil
 }
 
+// source text of an expression (go/printer), for the decision tables
+func srcText(e ast.Expr) string {
+	var sb strings.Builder
+	if err := printer.Fprint(&sb, token.NewFileSet(), e); err != nil {
+		return "?"
+	}
+	return strings.Join(strings.Fields(sb.String()), " ")
+}
+
 func exprText(e ast.Expr) string {
 	switch t := e.(type) {
 	case *ast.Ident:
@@ -457,7 +467,8 @@ type Facts struct {
 	RegistryWriters   map[string][]string `json:"registryWriters"`
 	PackageVarWriters map[string][]string `json:"packageVarWriters"`
 	PackageVarUsers   map[string][]string `json:"packageVarUsers"`
-	SubPackageVars    map[string][]string `json:"subPackageVars"` // package-level variables of the sub-packages (compare, sanitizer, …)
+	SubPackageVars    map[string][]string `json:"subPackageVars"`
+	OpTables          map[string][][2]string `json:"opTables"` // per function: (operator case, what the case computes) // package-level variables of the sub-packages (compare, sanitizer, …)
 	VarsAccess        map[string][][]Event `json:"varsAccessPaths"`
 	AsyncEvents       map[string][]string `json:"asyncEvents"`
 	AsyncUnwind       map[string][]string `json:"asyncUnwind"` // what runs, in order, when the called function panics
@@ -699,6 +710,61 @@ func (ex *extractor) packageVars(f *Facts) {
 			f.PackageVarWriters[v] = append(f.PackageVarWriters[v], w)
 		}
 		sort.Strings(f.PackageVarWriters[v])
+	}
+}
+
+// the operator decision tables: for every `case sqlparser.XOp:` of the `switch expr.Operator` in ComparisonExpr,
+// BinaryExpr and UnaryExpr the text of what the case computes (its first value-defining assignment, else its first
+// returned expression)
+func (ex *extractor) opTables(f *Facts) {
+	f.OpTables = map[string][][2]string{}
+	for _, fn := range []string{"ComparisonExpr", "BinaryExpr", "UnaryExpr"} {
+		fd := ex.funcs[fn]
+		if fd == nil || fd.Body == nil {
+			continue
+		}
+		ast.Inspect(fd.Body, func(n ast.Node) bool {
+			sw, ok := n.(*ast.SwitchStmt)
+			if !ok || sw.Tag == nil || exprText(sw.Tag) != "expr.Operator" {
+				return true
+			}
+			for _, st := range sw.Body.List {
+				cc, ok := st.(*ast.CaseClause)
+				if !ok || len(cc.List) != 1 {
+					continue
+				}
+				label := exprText(cc.List[0])
+				what := ""
+				for _, b := range cc.Body {
+					ast.Inspect(b, func(m ast.Node) bool {
+						if what != "" {
+							return false
+						}
+						switch t := m.(type) {
+						case *ast.AssignStmt:
+							if len(t.Lhs) == 1 && len(t.Rhs) == 1 {
+								if id, ok := t.Lhs[0].(*ast.Ident); ok && id.Name == "rs" && t.Tok == token.DEFINE {
+									what = srcText(t.Rhs[0])
+								}
+							}
+						case *ast.ReturnStmt:
+							if len(t.Results) > 0 {
+								what = srcText(t.Results[0])
+							}
+						case *ast.IfStmt, *ast.ForStmt, *ast.RangeStmt:
+							// the first statement that decides is what is recorded; nested control flow is summarised
+							what = "<" + fmt.Sprintf("%T", t)[5:] + ">"
+						}
+						return what == ""
+					})
+					if what != "" {
+						break
+					}
+				}
+				f.OpTables[fn] = append(f.OpTables[fn], [2]string{label, what})
+			}
+			return false
+		})
 	}
 }
 
@@ -1507,6 +1573,7 @@ func main() {
 		}
 	}
 	ex.varsAccess(f)
+	ex.opTables(f)
 	ex.asyncEvents(f)
 	ex.forwarders(f)
 	ex.registry(f)
@@ -1567,6 +1634,13 @@ func main() {
 			evs = append(evs, "."+e)
 		}
 		sb.WriteString("def " + k + "Events : List Ev := [" + strings.Join(evs, ", ") + "]\n")
+	}
+	for _, fn := range []string{"ComparisonExpr", "BinaryExpr", "UnaryExpr"} {
+		var items []string
+		for _, r := range f.OpTables[fn] {
+			items = append(items, "("+strconv.Quote(r[0])+", "+strconv.Quote(r[1])+")")
+		}
+		sb.WriteString("def opTable" + fn + " : List (String × String) :=\n  [" + strings.Join(items, ",\n   ") + "]\n\n")
 	}
 	for _, k := range []string{"async", "spinasync", "spin"} {
 		sb.WriteString("def " + k + "Unwind : List String := " + leanStrList(f.AsyncUnwind[k]) + "\n")
